@@ -76,7 +76,8 @@ RULES = {1: "received a value that was never emitted", 2: "received an event of 
          7: "an earlier completed event was skipped or overtaken", 8: "a later event arrived before the retained one",
          9: "Emit returned although the subscriber's channel was full (dropped)",
          10: "consumer waiting but an emitted event / the retained event was not delivered",
-         11: "panic", 12: "an operation never returned (deadlock)"}
+         11: "panic", 12: "an operation never returned (deadlock)",
+         13: "a call is blocked at quiescence although no stalled (unread, unclosed) subscription it may wait for exists (deadlock)"}
 
 
 def parse(t):
@@ -159,6 +160,9 @@ def key(tag, toks, d):
             shape = stuck_shape(toks)
             if shape:
                 return "C15:rule12:deadlock:withNode/tryDropNode-hold-basicBus.lk-while-waiting-for-n.lk:" + shape
+        if rule == 13:
+            ops = "".join("%d%d" % (k, a if k in (0, 1) else 0) for k, a, b, v in labs[:pos + 1])
+            return "C15:rule13:blocked-%s:%s" % (OPS.get(d[3], d[3]), ops[-80:])
         s = d[3] if len(d) > 3 else -1
         shape = ("wild" if subs[s][0] else "typed%d" % len(subs[s][2])) + ":cap%d" % subs[s][1] if 0 <= s < len(subs) else "-"
         ops = "".join("%d%d" % (k, a if k in (0, 1) else 0) for k, a, b, v in labs[:pos + 1])
